@@ -131,6 +131,11 @@ def case_cfg(case: Dict) -> Tuple[Any, Optional[Dict]]:
         cfg, meta = gen_scenario.build(case["spec"])
         if case.get("io"):
             cfg["io_settings"].update(case["io"])
+        if case.get("more_actions"):
+            # entries a case adds to the defender's action map (appended: the generated indices stay what they were)
+            from .c09_gen import apply_extras
+
+            apply_extras(cfg, meta, case["more_actions"])
         return cfg, meta
     cfg = load_shipped(case["path"])
     if case.get("max_len"):
